@@ -114,6 +114,11 @@ pub fn strategy() -> BoxedStrategy<Case> {
                 (Meth::RK4, Some(f)) => Some(f.max(0.004)),
                 (_, f) => f,
             };
+            if stiff == 1 && z != 0 {
+                // one case in 150: the right-hand side vanishes identically (f(x0, y0) = 0 exactly): the initial-step
+                // heuristics take their degenerate branches; every evaluation they count must have been made
+                prob = ProbSpec { blocks: vec![Block::Const { c: 0.0, u0: 0.7 }, Block::Const { c: 0.0, u0: -1.3 }], warp: Warp { theta: 1.0, k: 0, beta: 0.0 }, mix: None, mag2: 0 };
+            }
             if stiff == 0 && z != 0 {
                 // one case in 150: a stiff decay handed to DOPRI5 / DOP853, so that the run ends through the solver's own
                 // stiffness detection (ProbablyStiff) after a thousand steps: the counters of that exit path
